@@ -20,6 +20,12 @@
 //   pipe <fmt> <nthread> <nparts> <bufwords> <chunks>   LineSplitter pipeline; <chunks> = the chunk
 //                                   sequence content/trailing,... the splitter delivers (computed by the
 //                                   generator with the real splitter, verified again by exec)   -> blocks [..]..
+//   tpipe <fmt> <nthread> <nparts> <bufwords> <chunks>  the same pipeline behind the prefetching
+//                                   ThreadedParser (what Parser::Create returns), read by a SLOW consumer: after
+//                                   every Next() the harness waits until the parsing thread is blocked (queue full
+//                                   or input finished) before it looks at Value().  Every block is printed with the
+//                                   ownership observation made when Next() returned (tmp_ != NULL and Value()
+//                                   points into (*tmp_)[data_ptr_-1])                           -> blocks [..]@1[..]@1
 //   <fmt> = svm:<iw>:<mode> | fm:<iw>:<mode> | csv:<iw>:<f32|i32|i64>:<label_column>:<weight_column>:<delimiter byte>
 // A row prints as (label weight qid fields indices values), `~` = NULL pointer, `-` = empty list; float
 // values as binary32 bit patterns, integer cells as two's complement.
@@ -36,6 +42,27 @@
 #include <cmath>
 #include <memory>
 #include <mutex>
+
+// ThreadedParser / ThreadedIter internals (tmp_, iter_, mutex_, nwait_producer_, produce_end_) are read by the
+// `tpipe` op: every header they pull in is included first, then only these two see `private` as `public`
+#include <dmlc/base.h>
+#include <dmlc/data.h>
+#include <atomic>
+#include <chrono>
+#include <condition_variable>
+#include <functional>
+#include <queue>
+#include <thread>
+#include <utility>
+#include <algorithm>
+#include <limits>
+#include <cstring>
+#include <vector>
+#include <data/row_block.h>
+#define private public
+#include <dmlc/threadediter.h>
+#include <data/parser.h>
+#undef private
 
 #include <data/csv_parser.h>
 #include <data/libfm_parser.h>
@@ -384,6 +411,65 @@ static Outcome do_next(const Fmt &f, Split *split, int nthread, bool want_slices
   return o;
 }
 
+// rows of a block read through the block alone (what a consumer of Value() does); ASan watches the bounds
+template <typename I, typename D>
+static void read_rows_block(const dmlc::RowBlock<I, D> &b, std::vector<RowS> *out) {
+  for (size_t i = 0; i < b.size; ++i) {
+    RowS r;
+    size_t lo = b.offset[i], hi = b.offset[i + 1];
+    if (b.label != NULL) { r.has_label = true; r.label = bits_of<D>(b.label[i]); }
+    if (b.weight != NULL) { r.has_w = true; r.w = bits_of<float>(b.weight[i]); }
+    if (b.qid != NULL) { r.has_q = true; r.q = b.qid[i]; }
+    if (b.field != NULL && lo != hi) { r.has_f = true; for (size_t k = lo; k < hi; ++k) r.f.push_back(b.field[k]); }
+    if (b.value != NULL && lo != hi) { r.has_v = true; for (size_t k = lo; k < hi; ++k) r.v.push_back(bits_of<D>(b.value[k])); }
+    for (size_t k = lo; k < hi; ++k) r.idx.push_back(b.index[k]);
+    out->push_back(r);
+  }
+}
+
+// wait until the producer thread of a ThreadedIter cannot make progress on its own: it waits for a free cell /
+// a request, or it has reported the end of the input (or failed)
+template <class It>
+static void quiesce(It &it) {
+  for (int i = 0; i < 20000; ++i) {  // at most about one second
+    {
+      std::lock_guard<std::mutex> lk(it.mutex_);
+      if (it.nwait_producer_ != 0 || it.produce_end_.load()) return;
+    }
+    std::this_thread::sleep_for(std::chrono::microseconds(50));
+  }
+}
+
+// drive a ThreadedParser (prefetching wrapper) over a parser built over `split`, as a slow consumer
+template <class P, typename I, typename D, class Split>
+static Outcome do_tnext(const Fmt &f, Split *split, int nthread, std::string *flags) {
+  Outcome o;
+  try {
+    dmlc::data::ThreadedParser<I, D> tp(new Probe<P, I, D>(static_cast<dmlc::InputSplit *>(split), f.args(), nthread));
+    while (true) {
+      bool more;
+      try {
+        more = tp.Next();
+      } catch (const dmlc::Error &) {
+        o.status = ERR_CHECK;
+        break;
+      }
+      if (!more) break;
+      const dmlc::RowBlock<I, D> &b = tp.Value();
+      bool own = tp.tmp_ != NULL && tp.data_ptr_ >= 1 && static_cast<size_t>(tp.data_ptr_) <= tp.tmp_->size() &&
+                 b.offset == dmlc::BeginPtr((*tp.tmp_)[tp.data_ptr_ - 1].offset);
+      flags->push_back(own ? '1' : '0');
+      quiesce(tp.iter_);
+      std::vector<RowS> rows;
+      read_rows_block<I, D>(b, &rows);
+      o.blocks.push_back(rows);
+    }
+  } catch (const dmlc::Error &) {
+    o.status = ERR_CHECK;
+  }
+  return o;
+}
+
 // dispatch on the format
 #define DISPATCH(CALL)                                                                                     \
   do {                                                                                                     \
@@ -443,6 +529,34 @@ static Outcome run_pipe(const Fmt &f, const std::string &doc, int nthread, unsig
   } else {
     all.text = "blocks ";
     for (auto &b : all.blocks) all.text += "[" + show_rows(b) + "]";
+  }
+  return all;
+}
+
+static Outcome run_tpipe(const Fmt &f, const std::string &doc, int nthread, unsigned nparts, size_t bufwords,
+                         std::vector<ChunkRec> *seen) {
+  Outcome all;
+  std::string flags;
+  for (unsigned k = 0; k < nparts; ++k) {
+    Outcome o;
+    RecordingSplit *s;
+    try {
+      s = new RecordingSplit(make_line_split(doc, k, nparts, bufwords), seen);
+    } catch (const dmlc::Error &) {
+      all.status = ERR_CHECK;
+      break;
+    }
+    DISPATCH((o = do_tnext<P, I, D, RecordingSplit>(f, s, nthread, &flags)));
+    if (o.status != OK) { all.status = o.status; break; }
+    all.blocks.insert(all.blocks.end(), o.blocks.begin(), o.blocks.end());
+  }
+  if (all.status != OK) {
+    all.blocks.clear();
+    all.text = status_str(all.status);
+  } else {
+    all.text = "blocks ";
+    for (size_t i = 0; i < all.blocks.size(); ++i)
+      all.text += "[" + show_rows(all.blocks[i]) + "]@" + std::string(1, i < flags.size() ? flags[i] : '?');
   }
   return all;
 }
@@ -672,6 +786,16 @@ struct ParseHarness : vh::Harness {
                      static_cast<size_t>(atoi(w[4].c_str())), &seen);
         if (o.status == OK && show_chunks(seen) != w[5]) o.text = "chunks-differ " + show_chunks(seen);
       }
+    } else if (w[0] == "tpipe" && w.size() == 6) {
+      Fmt f = parse_fmt(w[1]);
+      if (!f.ok) o.text = "bad-op";
+      else {
+        std::vector<ChunkRec> seen;
+        o = run_tpipe(f, doc, atoi(w[2].c_str()), static_cast<unsigned>(atoi(w[3].c_str())),
+                      static_cast<size_t>(atoi(w[4].c_str())), &seen);
+        if (o.status == OK && show_chunks(seen) != w[5]) o.text = "chunks-differ " + show_chunks(seen);
+        if (extra) ++(*extra)["tpipe_ops"];
+      }
     } else {
       o.text = "bad-op";
     }
@@ -704,7 +828,7 @@ struct ParseHarness : vh::Harness {
         ExpRow e;
         if (!parse_exp(w, &e)) table_ok = false;
         table.push_back(e);
-      } else if (w[0] == "block" || w[0] == "perline" || w[0] == "fill" || w[0] == "pipe") {
+      } else if (w[0] == "block" || w[0] == "perline" || w[0] == "fill" || w[0] == "pipe" || w[0] == "tpipe") {
         by_fmt[w[1]].push_back(i);
       }
     }
@@ -836,6 +960,12 @@ struct Gen {
         std::string op = pipe_op(fmt, doc, 1 + static_cast<int>(rng->below(g_maxthread)), 1 + static_cast<unsigned>(rng->below(4)),
                                  bw[rng->below(5)]);
         if (!op.empty()) c->ops.push_back(op);
+      }
+      // the same behind the prefetching ThreadedParser, slow consumer (one configuration per document)
+      if (rng->chance(1, level >= 3 ? 1 : 3)) {
+        std::string op = pipe_op(fmt, doc, 1 + static_cast<int>(rng->below(g_maxthread)), 1 + static_cast<unsigned>(rng->below(3)),
+                                 bw[rng->below(3)]);
+        if (!op.empty()) c->ops.push_back("t" + op);
       }
     }
   }
@@ -1113,6 +1243,36 @@ static void gen_random_doc(Gen &G, const std::string &kind, int level) {
   run_token_doc(G, "random", fmt, doc, level, true);
 }
 
+// long documents of well-formed lines behind ThreadedParser with 1..3-word buffers: more chunks than the prefetch
+// queue (capacity 8) has cells, so cells are recycled and refilled while earlier blocks are still being read
+static void gen_threaded_doc(Gen &G, const std::string &kind) {
+  vh::Rng &r = *G.rng;
+  std::string fmt = kind == "csv" ? std::string("csv:32:f32:0:-1:44") : kind + ":32:" + std::to_string(r.below(2));
+  size_t nl = 12 + r.below(G.quick ? 20 : 60);
+  std::string doc;
+  for (size_t i = 0; i < nl; ++i) {
+    std::string l = std::to_string(i % 7);
+    size_t ne = 1 + r.below(3);
+    for (size_t k = 0; k < ne; ++k) {
+      if (kind == "csv") l += "," + std::to_string((i * 3 + k) % 50);
+      else if (kind == "fm") l += " " + std::to_string(1 + k) + ":" + std::to_string(1 + (i + k) % 40) + ":" + std::to_string(i % 9);
+      else l += " " + std::to_string(1 + (i + k) % 40) + ":" + std::to_string(i % 9);
+    }
+    if (kind == "csv") for (size_t k = ne; k < 3; ++k) l += ",0";
+    doc += l + "\n";
+    if (r.chance(1, 9)) doc += "\n";
+  }
+  Case c;
+  c.kind = "threaded " + fmt;
+  for (auto &op : G.doc_ops(doc, true)) c.ops.push_back(op);
+  c.ops.push_back("perline " + fmt);
+  for (int k = 0; k < 2; ++k) {
+    std::string op = G.pipe_op(fmt, doc, 1 + static_cast<int>(r.below(g_maxthread)), 1 + static_cast<unsigned>(r.below(2)), 1 + r.below(3));
+    if (!op.empty()) c.ops.push_back("t" + op);
+  }
+  G.R->run_case(c);
+}
+
 static void corpus(Gen &G) {
   struct { const char *fmt, *doc; } docs[] = {
       {"svm:32:0", "1:\n5 1:2\n"},                       // F6: dangling colon after the label
@@ -1179,6 +1339,7 @@ int main(int argc, char **argv) {
     for (size_t i = 0; i < n; ++i) {
       static const char *kinds[] = {"svm", "fm", "csv"};
       gen_random_doc(G, kinds[i % 3], i % 5 == 0 ? 3 : 2);
+      if (i % (R.thorough() ? 20 : 35) == 0) gen_threaded_doc(G, kinds[(i / 5) % 3]);
     }
   }
   R.finish();
